@@ -14,16 +14,24 @@ Local Open Scope list_scope.
 
 (* functions the harness registers through genql.RegisterFunction (never immediate) *)
 Definition user_functions : list (string * bool) :=
-  [("fa", false); ("fb", false); ("fc", false); ("fe", false); ("fp", false)].
+  [("fa", false); ("fb", false); ("fc", false); ("fe", false); ("fp", false); ("fn", false); ("fz", false)].
 Definition run_registry : list (string * bool) := registry ++ user_functions.
 
 Definition first_is_two (args : list value) : bool :=
   match args with VNum x :: _ => PrimFloat.eqb x 2%float | _ => false end.
 
-(* fa fb fc return [name, args...]; fe returns an error and fp panics when the first argument is 2 *)
+Definition first_is_one (args : list value) : bool :=
+  match args with VNum x :: _ => PrimFloat.eqb x 1%float | _ => false end.
+
+(* fa fb fc return [name, args...]; fe returns an error and fp panics when the first argument is 2;
+   fz always returns NULL; fn returns NULL when its first argument is 1 (the first row's id) and
+   [name, args...] otherwise — so under ONCE every row must see NULL after a single invocation,
+   whereas a memo that treats a stored NULL as "absent" re-invokes it and yields a non-NULL value *)
 Definition harness_oracle : oracle := fun name args =>
   if String.eqb name "fe" && first_is_two args then FErr
   else if String.eqb name "fp" && first_is_two args then FPanic
+  else if String.eqb name "fz" then FOk VNull
+  else if String.eqb name "fn" && first_is_one args then FOk VNull
   else FOk (VArr (VStr name :: args)).
 
 Definition inv := (string * list value)%type.
